@@ -121,7 +121,7 @@ def main(tier, seed):
     return driver.run_check(
         PID, shard, params, tier, seed,
         min_evaluations=6000 if tier == "quick" else 200000,
-        rule=RULE,
+        rule=RULE, witness_fn=driver.program_witness,
         assumptions=["the all-paths claim is decided only for the paths the workload executes; the evidence reports how many conditional branches were seen both taken and not taken",
                      "GOSUB depth legitimately varies per statement and is not part of the depth vector; statements executed inside an ON ERROR GOTO handler are not judged by the depth-function clause"],
     )
